@@ -1,5 +1,7 @@
 """property id -> (module under checks/, function)"""
 TABLE = {
+    "C01": ("durability", "run_c01"),
+    "C02": ("durability", "run_c02"),
     "C04": ("core", "run_c04"),
     "C14": ("core", "run_c14"),
 }
